@@ -5,6 +5,8 @@ import math
 import numpy as np
 from hypothesis import strategies as st
 
+from ..core import sampled_from  # noqa: E402
+
 from .. import build, meshgen, refmodel, writers
 from .. import sphere as S
 from ..core import Failure
@@ -34,7 +36,7 @@ SRC = ["topo-lonlat", "topo-lonlat-360", "verts-xyz", "verts-lonlat", "mpas-both
 
 @st.composite
 def _case(draw, tier):
-    src = draw(st.sampled_from(SRC))
+    src = draw(sampled_from(SRC))
     big = tier != "quick"
     if src.startswith("mpas"):
         mesh = draw(meshgen.voronoi_mesh(6, 26 if big else 14))
@@ -44,14 +46,14 @@ def _case(draw, tier):
         "mesh": mesh,
         "src": src,
         "order": draw(st.permutations(list(range(len(PROPS))))),
-        "normalize_at": draw(st.sampled_from([None, None, 0, 3, 8, 15])),
-        "radius": draw(st.sampled_from([1.0, 6371229.0, 2.5])),
-        "face_c": draw(st.sampled_from(["none", "lonlat", "lonlat360", "xyz", "both"])),
-        "edge_c": draw(st.sampled_from(["none", "lonlat", "xyz", "both"])),
+        "normalize_at": draw(sampled_from([None, None, 0, 3, 8, 15])),
+        "radius": draw(sampled_from([1.0, 6371229.0, 2.5])),
+        "face_c": draw(sampled_from(["none", "lonlat", "lonlat360", "xyz", "both"])),
+        "edge_c": draw(sampled_from(["none", "lonlat", "xyz", "both"])),
         "edge_seed": draw(st.integers(0, 999)),
         # history: afterwards the face centres are rebuilt through the public API; what the grid then reports must
         # still be one point per face in both coordinate systems
-        "recentre": draw(st.sampled_from([None, None, "cartesian average", "welzl"])),
+        "recentre": draw(sampled_from([None, None, "cartesian average", "welzl"])),
     }
     return c
 
